@@ -303,6 +303,18 @@ def site_case(c):
             g.add_edge(nodes[a], nodes[b])
         g.entry = nodes[c["entry"]]
         return names(list(g.post_order()))
+    if op == "intv":
+        allv = c["nodes"]
+        nodes = {i: bb.StatementBlock(str(i), []) for i in allv}
+        g = gr.Graph()
+        for i in allv:
+            g.add_node(nodes[i])
+        for a, b in c["edges"]:
+            g.add_edge(nodes[a], nodes[b])
+        g.entry = nodes[c["entry"]]
+        g.compute_rpo()
+        _ig, heads = cf.intervals(g)
+        return ";".join("%s:%s" % (h.name, ".".join(n.name for n in iv.content)) for h, iv in heads.items())
     raise ValueError(op)
 
 
